@@ -104,6 +104,7 @@ pub fn explore_sim<O, M, J>(
     }
     let mut hung_prefix: Option<Vec<u32>> = None;
     let res = explore(bound, max_exec, |prefix| {
+        crate::pool::crumb(|| format!("execution of unit {unit} with choices {prefix:?}"));
         let m = make.clone();
         let o = sim_exec(seed, prefix, latency_us, move |s| m(s));
         out.evaluations += 1;
